@@ -73,7 +73,6 @@ func VH_C05_dashStart_Q() {
 	}
 	off := vNondetDyadic(10, 2)
 	vAssume(-3*P <= off && off <= 3*P)
-	vKnown("D3", off < -P)
 	i0, pos0 := dashStart(off, d)
 	vAssert("C05.dashStart.index", 0 <= i0 && i0 < n)
 	x := vNondetDyadic(8, 2)
